@@ -106,7 +106,21 @@ fn debug_sh(args: &[String]) {
         std::io::stdin().read_to_end(&mut input).ok();
     }
     cfg.stdin = input;
+    cfg.keep_state = true;
     let out = vsh::run_v(cfg);
+    if let Some(st) = &out.state {
+        for (pid, p) in st.borrow().processes.iter() {
+            eprintln!(
+                "process {} ppid={} state={:?} changed={} pending={:?} blocked={:?}",
+                pid.0,
+                p.ppid().0,
+                p.state(),
+                p.state_has_changed(),
+                p.pending_signals(),
+                p.blocked_signals()
+            );
+        }
+    }
     print!("{}", out.out());
     eprint!("{}", out.err());
     for e in &out.events {
